@@ -1,21 +1,23 @@
 (* C04 -- Running a parser is total, terminating and pure.
-   Property theorems only; proofs live in Lemmas/LoopLaws.v (and Lemmas/Reach.v).
-   PARTIAL.  What Rocq decides here: for EVERY definition built without `adjacent` (every
-   combinator of the model: flags, arguments, positionals, `any`, subcommands, construct!,
+   Property theorems only; proofs live in Lemmas/ (LoopLaws, TotalLaws, AdjTotal, TotalAll, Reach).
+   PARTIAL.  What Rocq decides here: for EVERY definition `oko` accepts -- every combinator of the model
+   arbitrarily nested: flags, arguments, positionals, `any`, subcommands (adjacent or not), construct!,
    alternatives, optional/many/some/collect/count/last, fallback, guard, parse, map, hide, usage,
-   group_help, pure, fail, boxed -- arbitrarily nested), every vector and every environment, a run
-   ends in a value, a help/version document or an error message: no panic outcome, no fuel
-   exhaustion (C04_total_without_adjacent); and the ledger bound / loop termination it rests on.
-   Not theorems: (a) adjacent groups and adjacent commands (the retry loop is fuelled in the model;
-   its panic sites are explicit outcomes the differential run compares; one class is a known
-   finding), (b) the panic sites of message rendering and completion (compared per run; for
-   documentation generation and console rendering see C04_documentation_returns and
-   C04_console_rendering_returns below), (c) purity --
-   Gallina functions are pure by construction; the implementation is re-run on the same
-   OptionParser and after other operations (driver modes `twice`, `history`). *)
+   group_help, pure, fail, boxed, and ADJACENT GROUPS whose members keep their scope (everything but `any`,
+   subcommands and nested groups inside the group) and which start with an item -- every
+   vector and every environment, a run ends in a value, a help/version document or an error message: no
+   panic outcome, no fuel exhaustion (C04_total); the retry loop of ParseAdjacent::eval terminates and its
+   panic sites (scope arithmetic, `before - remaining`) are unreachable (C04_adjacent_group_total);
+   documentation generation and console rendering return (C04_documentation_returns,
+   C04_console_rendering_returns).
+   Not theorems: (a) adjacent groups with `any`, subcommands or nested groups as members, or
+   without a first item (that one panics: known finding) -- their FUEL/panic outcomes are explicit in the
+   model and compared with the implementation, (b) the panic sites of message rendering and completion
+   (compared per run), (c) purity -- Gallina functions are pure by construction; the implementation is
+   re-run on the same OptionParser and after other operations (driver modes `twice`, `history`). *)
 From Coq Require Import List Arith.
 From BpafModel Require Import Conv Wf Docs Console.
-From BpafLemmas Require Import Tac EvalEq Reach LoopLaws TotalLaws AbsSim AbsTotal ConvRefine ConvTotal HtmlLaws BalLaws ConsoleLaws.
+From BpafLemmas Require Import Tac EvalEq Reach LoopLaws TotalLaws AdjLaws AdjTotal TotalAll AbsSim AbsTotal ConvRefine ConvTotal HtmlLaws BalLaws ConsoleLaws.
 Import ListNotations.
 
 (* `remaining <= number of items` (and the item-state vector has the length of the item list)
@@ -75,24 +77,43 @@ Theorem C04_flat_level_total :
 Proof. exact flat_run_total. Qed.
 Print Assumptions C04_flat_level_total.
 
-(* EVERY definition without `adjacent` whose named items have a name or a variable and whose option
-   levels pass check_invariants (`oko`, decidable, evaluated on every generated definition), on
-   EVERY argument vector and environment: the outcome is a value, a document or an error message *)
-Theorem C04_total_without_adjacent :
+(* EVERY definition `oko` accepts (decidable, evaluated on every generated definition: adjacent groups
+   have scope-keeping members and a first item; named items have a name or a variable;
+   option levels pass check_invariants), on EVERY argument vector and environment: the outcome is a
+   value, a document or an error message *)
+Theorem C04_total :
   forall feat env o name argv, oko o = true ->
   normal_outcome (run_inner feat env o name argv).
 Proof. exact run_total. Qed.
-Print Assumptions C04_total_without_adjacent.
+Print Assumptions C04_total.
 
 (* the same for the evaluation of any sub-parser from any well-formed state (ledger bounded, scope
    inside the ledger): states only move by legal steps, which keep them well-formed *)
-Theorem C04_eval_total_without_adjacent :
+Theorem C04_eval_total :
   forall env p s, okp p = true -> G s ->
   nf (fst (eval env p s)) /\ G (snd (eval env p s)).
 Proof.
   intros env p s Hp Hg. split; [exact (proj1 (eval_total_all env) p Hp s Hg)|exact (proj1 (eval_keepsG env p s Hg))].
 Qed.
-Print Assumptions C04_eval_total_without_adjacent.
+Print Assumptions C04_eval_total.
+
+(* the retry loop of an adjacent group: for every member parser that keeps its scope and consumes only
+   inside it, moves the ledger by legal steps and is itself total, and a group that starts with an item,
+   evaluation from every well-formed state ends in a value or an error -- the loop ends within the
+   fuel the model gives it (after the first retry the right end of the window holds an available item
+   outside the window, so later ends can only shrink) and no panic site is reached *)
+Theorem C04_adjacent_group_total :
+  forall ev, ev_inscope ev -> ev_reach (fun _ => True) ev -> total ev ->
+  forall fi, fi <> None -> total (eval_adjacent ev fi).
+Proof. exact adjacent_total. Qed.
+Print Assumptions C04_adjacent_group_total.
+
+(* `remaining` is exactly the number of available items inside the scope, initially and after every
+   evaluation: the `before - remaining` of the retry loop never underflows because of it *)
+Theorem C04_remaining_exact :
+  forall env p s, G s -> G (snd (eval env p s)).
+Proof. intros env p s Hg. exact (proj1 (eval_keepsG env p s Hg)). Qed.
+Print Assumptions C04_remaining_exact.
 
 (* documentation generation returns, for EVERY definition (adjacent groups included) whose own documents
    are what the Doc API can build (`odok`): section extraction never runs out of fuel, the group loop of
@@ -119,4 +140,21 @@ Example C04_example_oko :
                                   (PCmd [99%N] [] [] None false
                                         (Options (PGuard (PPos [80%N] TyString Unrestricted None) (fun _ => true) []) default_info)))
                              PNil))) default_info) = true.
+Proof. vm_compute. reflexivity. Qed.
+
+(* adjacent subcommands: the window handed to the subcommand and the one retry on a narrower window stay
+   inside the ledger; the subcommand's own parser is total by induction *)
+Theorem C04_adjacent_command_total :
+  forall name aliases shorts help m_sub i_sub run,
+  keepsGr run -> totalr run -> total (cmd_body name aliases shorts help true m_sub i_sub run).
+Proof. exact cmd_adjacent_total. Qed.
+Print Assumptions C04_adjacent_command_total.
+
+(* ... and one with a repeated adjacent group `--point X Y` next to a switch *)
+Example C04_example_oko_adjacent :
+  oko (Options (PCon (PCons (PFlag (mkNamed [99%N] [] [] None) (VBool true) (Some (VBool false)))
+                      (PCons (PMany (PAdj (PCons (PFlag (mkNamed [] [[112]%N] [] None) VUnit None)
+                                          (PCons (PPos [88%N] TyString Unrestricted None)
+                                          (PCons (PPos [89%N] TyString Unrestricted None) PNil)))) false) PNil)))
+               default_info) = true.
 Proof. vm_compute. reflexivity. Qed.
